@@ -28,6 +28,46 @@ func refResult(in *Input) (res string, err string, ok bool) {
 	return d, dump.Err(e), true
 }
 
+// orderDependent tells whether the result of reading the input is not a
+// function of its bytes at all: PostScript leaves the order in which forall
+// visits a dictionary open, and the interpreter follows Go's map order, so a
+// program that iterates a dictionary with a body that leaves things behind
+// gives different results from run to run under one and the same delivery.
+// The generators never write such programs, but damage (deleted or flipped
+// bytes) can produce one.  Two tests, either suffices: the program is run once
+// more behind a prologue that makes forall report dictionary operands, and the
+// reference delivery is repeated.
+func orderDependent(in *Input, st *sim.Stats) (dep bool) {
+	defer func() {
+		if dep {
+			st.Inc("skipped_inputs_iterating_a_dictionary(order left open by PostScript)")
+		}
+	}()
+	if len(in.Data) > 0 && in.Data[0] != 0x80 && in.Surf != SurfAFM && in.Surf != SurfPFB {
+		func() {
+			defer func() { recover() }()
+			ip := postscript.NewInterpreter()
+			ip.MaxOps = 4_000_000
+			ip.ExecuteString("userdict /forall { 1 index type /dicttype eq { userdict /VERIF-dict-forall true put } if systemdict /forall get exec } put")
+			ip.Execute(bytes.NewReader(in.Data))
+			if _, seen := ip.UserDict["VERIF-dict-forall"]; seen {
+				dep = true
+			}
+		}()
+		if dep {
+			return true
+		}
+	}
+	first, firstErr, ok := refResult(in)
+	for i := 0; ok && i < 12; i++ {
+		d, e, ok2 := refResult(in)
+		if !ok2 || d != first || e != firstErr {
+			return true
+		}
+	}
+	return false
+}
+
 func (in *Input) withOffset() []byte {
 	if in.Offset == 0 {
 		return in.Data
@@ -73,6 +113,9 @@ func underSchedule(in *Input, refRes, refErr string, sch sim.Schedule, tape *sim
 		return &sim.Outcome{Class: "no-progress", Key: key + ":no-progress", Detail: fmt.Sprintf("%s kept calling Read without end under schedule %s", in.Surf, sch), Human: human()}
 	}
 	if de := dump.Err(e); d != refRes || de != refErr {
+		if orderDependent(in, st) {
+			return nil
+		}
 		return &sim.Outcome{Class: "delivery-dependent", Key: key,
 			Detail: fmt.Sprintf("%s: result under schedule %s differs from the one-read delivery: %s", in.Surf, sch, firstDiff(de+" "+d, refErr+" "+refRes)), Human: human()}
 	}
@@ -158,7 +201,7 @@ func C12() *sim.Check {
 			}
 			d, e, p := safeConsume(in.Surf, stdReader(kind, in.Data), nil)
 			c.St.Inc("fired_std_reader_" + kind)
-			if p != nil || d != refRes || dump.Err(e) != refErr {
+			if (p != nil || d != refRes || dump.Err(e) != refErr) && !orderDependent(in, c.St) {
 				out := &sim.Outcome{Class: "delivery-dependent", Key: "deliver:" + in.Surf.String() + ":" + kind,
 					Detail: fmt.Sprintf("%s: result when reading from a %s differs from the one-read simulated delivery: %s (panic: %v)", in.Surf, kind, firstDiff(dump.Err(e)+" "+d, refErr+" "+refRes), p)}
 				if c.Explain {
